@@ -248,14 +248,15 @@ def _c04(tier):
 
 
 plan('C04', jobs=_c04, level='fault_enumeration',
-     rule='A case is (container state, operation, argument choice): states are ALL ordered arrangements of all subsets of a 4-class key universe that fit into N for N in 0..=4 (1, 5, 17, 41, 65 slot layouts), operations are 44 Map and 30 Set operations that can call user code, arguments are the key stored first / in the middle / last and an absent key (set-algebra operations additionally range over four second operands). Every case is first run unfaulted to count its user-callback ticks n, then re-run n times with a single-shot panic injected at tick k = 1..n (K::eq, Q::eq, Borrow, K::clone, V::clone, K::drop, V::drop, V::default, V::eq, closures, source-iterator next, fmt); after each unwinding every container involved is validated, exercised and dropped under the ownership ledger. One evaluation = one such run; a faulted run is non-trivial and distinct by (state, operation, argument, k). Random larger states (N = 8, 16) are added on top.',
+     rule='A case is (container state, operation, argument choice): states are ALL ordered arrangements of all subsets of a 4-class key universe that fit into N for N in 0..=4 (1, 5, 17, 41, 65 slot layouts), operations are 55 Map and 33 Set operations (incl. consuming iterators and drains driven through for_each / fold / last / nth / skip with faulting closures) that can call user code, arguments are the key stored first / in the middle / last and an absent key (set-algebra operations additionally range over four second operands). Every case is first run unfaulted to count its user-callback ticks n, then re-run n times with a single-shot panic injected at tick k = 1..n (K::eq, Q::eq, Borrow, K::clone, V::clone, K::drop, V::drop, V::default, V::eq, closures, source-iterator next, fmt); after each unwinding every container involved is validated, exercised and dropped under the ownership ledger. One evaluation = one such run; a faulted run is non-trivial and distinct by (state, operation, argument, k). Random larger states (N = 8, 16) are added on top.',
      required=['fault:clone:K::clone', 'fault:clone:V::clone', 'fault:clear:V::drop', 'fault:retain(some):K::drop', 'fault:retain(some):closure',
                'fault:insert:K::eq', 'fault:from_iter:source.next', 'fault:set.sub:K::clone', 'fault:set.extend:source.next', 'fault:entry.or_insert_with:closure',
                'fault:remove(q):Q::eq', 'fault:remove(q):borrow', 'fault:eq(equal):V::eq', 'fault:fmt.debug:fmt', 'fault:drop(map):K::drop',
                'fault:into_iter.take1.drop:V::drop', 'fault:drain.take1.drop:K::drop', 'fault:entry.or_default:V::default', 'fault:set.retain(some):K::drop',
+               'fault:into_iter.for_each:closure', 'fault:into_iter.last:V::drop', 'fault:drain.for_each:closure', 'fault:into_values.for_each:K::drop', 'fault:set.into_iter.for_each:closure',
                'random-big:map', 'random-big:set'],
      floors={'faults_fired': 1000},
-     exhaustive_subspace='all 129 slot layouts over a 4-class universe for N in 0..=4 x 74 operations x up to 4 key choices x every callback tick (dbg and rel); Miri: the N <= 2 part sampled 1-in-3 by seed in the quick tier, the complete N <= 3 part in the thorough tier',
+     exhaustive_subspace='all 129 slot layouts over a 4-class universe for N in 0..=4 x 88 operations x up to 4 key choices x every callback tick (dbg and rel); Miri: the N <= 2 part sampled 1-in-3 by seed in the quick tier, the complete N <= 3 part in the thorough tier',
      assumptions=NATIVE_ASSUME + SAN_ASSUME + ['exactly one panic is injected per run; panics in Drop are injected only when the thread is not already unwinding (a double panic aborts by language rules)',
                   'leaks after a user panic are tolerated by the property and only counted'],
      title='panic safety (fault enumeration)',
